@@ -397,6 +397,20 @@ def cluster_cases():
     for us in ["bindgen_wrapper", "manually_drop"]:
         for extra in ([], ["--no-derive-copy"], ["--with-derive-default", "--impl-debug"], ["--disable-untagged-union"], ["--enable-cxx-namespaces", "--with-derive-partialeq", "--impl-partialeq"]):
             cases.append((name, ext, text, ["--default-non-copy-union-style", us] + extra))
+    # records whose fields cannot be computed (bit-fields of dependent type, flexible arrays in odd places, incomplete types) x the options
+    # that walk fields before looking at opacity (flexible-array DSTs, explicit padding, manual impls, wrapper unions)
+    odd = ("odd-fields-cxx", "hpp", "template <class T> class X { T t : 6; int tail[]; };\ntemplate <class T> struct Y { T a : 3; T b : 60; char c[0]; };\n"
+           "struct Fx { int n; int data[]; };\nstruct Hx { Fx inner; long more[]; };\nstruct Fwd;\nstruct UsesFwd { Fwd *p; Fwd &r; };\n"
+           "X<int> gx; Y<unsigned long> gy;\nunion Ux { Fx f; int i; char z[]; };\n")
+    for extra in ([], ["--flexarray-dst"], ["--flexarray-dst", "--rust-target", "nightly"], ["--explicit-padding"], ["--impl-debug", "--impl-partialeq", "--with-derive-partialeq"],
+                  ["--default-non-copy-union-style", "manually_drop", "--no-derive-copy"], ["--flexarray-dst", "--enable-cxx-namespaces", "--with-derive-default"],
+                  ["--opaque-type", "X.*", "--flexarray-dst"], ["--no-layout-tests", "--flexarray-dst", "--with-derive-hash"]):
+        cases.append(odd + (extra,))
+    oddc = ("odd-fields-c", "h", "struct fa { int n; int data[]; };\nstruct fb { char c; struct fa in; };\nunion fu { struct fa f; char z[]; int i; };\n"
+            "struct fz { int z[0]; int n; long t[]; };\nstruct fe { };\nstruct ff { struct fe e[0]; char d[]; };\n")
+    for extra in ([], ["--flexarray-dst"], ["--flexarray-dst", "--rust-target", "nightly"], ["--explicit-padding", "--flexarray-dst"], ["--impl-debug", "--flexarray-dst"],
+                  ["--flexarray-dst", "--with-derive-default", "--with-derive-hash", "--with-derive-partialeq"]):
+        cases.append(oddc + (extra,))
     return cases
 
 
